@@ -96,13 +96,15 @@ PROPS["C07"] = dict(
                "exp, inv, ...) are proved at the level of residues mod p by Verus on bodies extracted from /repo "
                "on every run, against the leaf contracts. The 128-bit field's multiplication (mul with its limb helpers "
                "mul_128x64, mul_reduce, mul_by_modulus, sub_modulus, sub_192x192, add64_with_carry) is proved entirely in "
-               "Verus, bit-precisely, from the extracted bodies: canonical operands give a canonical result congruent to a*b.",
+               "Verus, bit-precisely, from the extracted bodies: canonical operands give a canonical result congruent to a*b. "
+               "The binary-Euclid inversions of the 62- and 128-bit fields are proved partially correct from their extracted bodies "
+               "(loop invariants a*x == v, d*x == -u mod p with explicit witnesses; a halving budget bounds the 192-bit accumulators).",
     level_note="Trusted: Kani/CBMC/CaDiCaL, Verus/Z3, rustc; leaf contracts proved by Kani are assumed (external_body) "
                "in the Verus units with the same clause text; primality of the moduli / Fermat for inv; type shims "
                "for BaseElement in the Verus files. Functions not under contract are listed in DESIGN.md 4.C07.",
     explanation="",
     trusted=["primality of the three moduli; Fermat's little theorem (x^(M-1) = 1) for the step inv(x) = x^(M-2) of the 64-bit field",
-             "termination of f62::inv's binary-Euclid loops (needs gcd(x, M) = 1): the Verus contract is a partial-correctness statement",
+             "termination of the binary-Euclid loops of f62::inv and f128::inv (needs gcd(x, M) = 1): their Verus contracts are partial-correctness statements",
              "mathematical lifting from the Montgomery witness identity to residues where no Verus lemma covers it"],
     not_decided=[],
 )
@@ -115,7 +117,7 @@ for _u, _fns in (("f64x", ["f64::ExtensibleField<2>::{mul,square,mul_base,froben
                  ("f128x", ["f128::ExtensibleField<2>::{mul,mul_base,frobenius}"])):
     verus_unit(_u, _u, ["C08"], _fns)
 
-verus_unit("f128v", "f128", ["C07"], ["f128::mul", "f128::add", "f128::sub", "f128::mul_reduce", "f128::mul_128x64", "f128::mul_by_modulus", "f128::sub_modulus", "f128::sub_192x192", "f128::add64_with_carry"])
+verus_unit("f128v", "f128", ["C07"], ["f128::inv (partial correctness: canonical result, x * inv(x) == 1 mod p for x != 0, inv(0) == 0; termination not proved)", "f128::add_192x192", "f128::mul", "f128::add", "f128::sub", "f128::mul_reduce", "f128::mul_128x64", "f128::mul_by_modulus", "f128::sub_modulus", "f128::sub_192x192", "f128::add64_with_carry"])
 verus_unit("fconsts", "fconsts", ["C07"], ["f64/f62/f128: MODULUS, TWO_ADICITY, TWO_ADIC_ROOT_OF_UNITY, GENERATOR"])
 verus_unit("extinv", "extinv", ["C08"], ["QuadExtension::inv", "CubeExtension::inv"])
 
